@@ -48,6 +48,8 @@ class Conc(object):
         base = "%s/%s dir" % (self.uid(u), self.kind.get(k, k))
         if self.rot % 7 == 5 and k in ("packages", "repository"):
             return ""               # the blank path: the top directory itself (what "packagedir =" meant before productmd)
+        if self.rot % 7 == 3 and k in ("packages", "repository", "source_packages", "source_repository"):
+            return "."              # the documented spelling of the same place (doc/treeinfo-1.x.rst: "repository = .")
         return [base, base + "/", "./" + base, base.replace("/", "//", 1), "x/../" + base][self.rot % 5]
 
 
